@@ -10,6 +10,7 @@
 import WD.Generated.EventClasses
 import WD.Generated.InotifyTables
 import WD.Proofs.Pipeline.Filter
+import WD.Proofs.Pipeline.FilterFlat
 namespace WD.C11
 open WD.Generated
 
@@ -195,6 +196,99 @@ example :
     ((Sys.start FS.init true false).runF (maskOf (filterMask ["FileDeletedEvent"])) (accOf ["FileDeletedEvent"]) ops).2.map
         (·.map PEv.toEvent) =
       [[], [], [⟨.FileDeletedEvent, "W/a", "", false⟩], [⟨.FileDeletedEvent, "W/b", "", false⟩]] := by
+  decide +kernel
+
+/-! ### non-recursive watches: the mask may also leave out CREATE / MOVED_FROM / MOVED_TO -/
+
+def filterMaskNR (cs : List String) : Nat :=
+  cs.foldl (fun a c => a ||| ((singletonMask.find? (fun r => r.1 == c && !r.2.1)).map (·.2.2)).getD 0) emptyFilterMaskNonRec
+
+/-- table level, decided over the regenerated tables: under a non-recursive watch every filter class's mask asks for both
+    halves of a move or for neither, keeps the root's DELETE_SELF, and leaves out only record kinds (and pairs) whose events
+    the class rejects -/
+theorem singleton_flat_complete :
+    ∀ r ∈ singletonMask, r.2.1 = false →
+      ((maskOf r.2.2 .movedFrom == maskOf r.2.2 .movedTo) && completeBF (maskOf r.2.2) (accOf [r.1])) = true := by
+  decide +kernel
+
+theorem empty_flat_complete :
+    ((maskOf emptyFilterMaskNonRec .movedFrom == maskOf emptyFilterMaskNonRec .movedTo) &&
+     completeBF (maskOf emptyFilterMaskNonRec) (accOf [])) = true := by
+  decide +kernel
+
+theorem filter_flat_complete (cs : List String) (hcs : ∀ c ∈ cs, ∃ r ∈ singletonMask, r.1 = c ∧ r.2.1 = false) :
+    maskOf (filterMaskNR cs) .movedFrom = maskOf (filterMaskNR cs) .movedTo ∧
+    CompleteF (maskOf (filterMaskNR cs)) (accOf cs) := by
+  have h0 := empty_flat_complete
+  simp only [Bool.and_eq_true, beq_iff_eq] at h0
+  have gen : ∀ (cs pre : List String) (n : Nat), (∀ c ∈ cs, ∃ r ∈ singletonMask, r.1 = c ∧ r.2.1 = false) →
+      maskOf n .movedFrom = maskOf n .movedTo → CompleteF (maskOf n) (accOf pre) →
+      (maskOf (cs.foldl (fun a c => a ||| ((singletonMask.find? (fun r => r.1 == c && !r.2.1)).map (·.2.2)).getD 0) n) .movedFrom =
+       maskOf (cs.foldl (fun a c => a ||| ((singletonMask.find? (fun r => r.1 == c && !r.2.1)).map (·.2.2)).getD 0) n) .movedTo) ∧
+      CompleteF (maskOf (cs.foldl (fun a c => a ||| ((singletonMask.find? (fun r => r.1 == c && !r.2.1)).map (·.2.2)).getD 0) n))
+        (accOf (pre ++ cs)) := by
+    intro cs
+    induction cs with
+    | nil => intro pre n _ hb hc; simpa using ⟨hb, hc⟩
+    | cons c rest ih =>
+      intro pre n hmem hb hc
+      simp only [List.foldl_cons]
+      obtain ⟨r, hr, rfl, hrec⟩ := hmem c (List.mem_cons_self ..)
+      cases hfind : singletonMask.find? (fun x => x.1 == r.1 && !x.2.1) with
+      | none =>
+        have := List.find?_eq_none.1 hfind r hr
+        simp [hrec] at this
+      | some r' =>
+        have hr'mem := List.mem_of_find?_eq_some hfind
+        have hr'p := List.find?_some hfind
+        simp only [Bool.and_eq_true, beq_iff_eq, Bool.not_eq_true'] at hr'p
+        have hrow := singleton_flat_complete r' hr'mem hr'p.2
+        simp only [Bool.and_eq_true, beq_iff_eq] at hrow
+        have hc' : CompleteF (maskOf r'.2.2) (accOf [r'.1]) := CompleteF_of_check hrow.2
+        have hb2 : maskOf (n ||| r'.2.2) .movedFrom = maskOf (n ||| r'.2.2) .movedTo := by
+          rw [maskOf_or, maskOf_or, hb, hrow.1]
+        have hc2 : CompleteF (maskOf (n ||| r'.2.2)) (accOf (pre ++ [r.1])) := by
+          have hu := hc.union hc'
+          refine ⟨?_, ?_⟩
+          · intro fs full e hm hne
+            have hm' : (maskOf n e.flag || maskOf r'.2.2 e.flag) = false := by rw [← maskOf_or]; exact hm
+            have := hu.one fs full e hm' hne
+            refine ⟨fun ev hev => ?_, this.2⟩
+            have h3 := this.1 ev hev
+            simp only [accOf, List.any_append, List.any_cons, List.any_nil, Bool.or_false, hr'p.1] at h3 ⊢
+            exact h3
+          · intro hm fs full f t ev hev
+            have hm' : (maskOf n .movedFrom || maskOf r'.2.2 .movedFrom) = false := by rw [← maskOf_or]; exact hm
+            have h3 := hu.two hm' fs full f t ev hev
+            simp only [accOf, List.any_append, List.any_cons, List.any_nil, Bool.or_false, hr'p.1] at h3 ⊢
+            exact h3
+        have := ih (pre ++ [r.1]) (n ||| r'.2.2) (fun c hc => hmem c (List.mem_cons_of_mem _ hc)) hb2 hc2
+        simpa [Option.map, Option.getD, List.append_assoc] using this
+  have := gen cs [] emptyFilterMaskNonRec hcs h0.1 (CompleteF_of_check h0.2)
+  simpa [filterMaskNR] using this
+
+/-- **the property, stream level, non-recursive watch** (`_partial`: every operation drained, histories of valid
+    operations): a non-recursive watch scheduled with the filter `cs` delivers, operation by operation and in the same
+    order, exactly the unfiltered non-recursive watch's events that are instances of one of the filter's classes, and its
+    kernel state, its watch maps and its stopped flag are the unfiltered watch's (it merely remembers fewer MOVED_FROMs) -/
+theorem stream_filtered_nonrecursive_partial (fs0 : FS) (hwf : fs0.WF) (full : Bool) (ops : List Op)
+    (hv : allValid (Sys.start fs0 false full) ops = true)
+    (cs : List String) (hcs : ∀ c ∈ cs, ∃ r ∈ singletonMask, r.1 = c ∧ r.2.1 = false) :
+    ((Sys.start fs0 false full).runF (maskOf (filterMaskNR cs)) (accOf cs) ops).2 =
+      ((Sys.start fs0 false full).run ops).2.map (fun evs => evs.filter (fun e => accOf cs e.cls)) ∧
+    SimS ((Sys.start fs0 false full).run ops).1 ((Sys.start fs0 false full).runF (maskOf (filterMaskNR cs)) (accOf cs) ops).1 := by
+  obtain ⟨hcl, hc⟩ := filter_flat_complete cs hcs
+  obtain ⟨inv, hs, hcr, _, _⟩ := start_flat fs0 hwf full
+  exact runF_flat hcl hc ops _ _ ⟨rfl, rfl, rfl, rfl, rfl, Sim.refl _⟩ (fun _ => inv.flatMaps)
+    (run_flat _ ops inv hs hcr hv).2.1
+
+/-- non-vacuity: {FileModifiedEvent} on a non-recursive watch (mask: MODIFY, ATTRIB, DELETE_SELF only): creations, moves
+    and deletions go unreported, the write and the chmod are delivered -/
+example :
+    let ops := [Op.create ["W", "a"], .write ["W", "a"], .rename ["W", "a"] ["W", "b"], .chmod ["W", "b"], .unlink ["W", "b"]]
+    ((Sys.start FS.init false false).runF (maskOf (filterMaskNR ["FileModifiedEvent"])) (accOf ["FileModifiedEvent"]) ops).2.map
+        (·.map PEv.toEvent) =
+      [[], [⟨.FileModifiedEvent, "W/a", "", false⟩], [], [⟨.FileModifiedEvent, "W/b", "", false⟩], []] := by
   decide +kernel
 
 end stream
